@@ -71,11 +71,18 @@ async fn scenario(prop: &'static str) {
 			return;
 		}
 	};
+	// client pings: real ping / pong frames between the two library ends, ticking inside the client's select loops
+	let (ping, req_timeout) = crate::cli::draw_ping();
+	let ping_mode = ping.is_some();
+	let mut builder = Client::builder();
+	if let Some(p) = ping {
+		builder = builder.enable_ws_ping(p);
+	}
 	let client: Arc<Client> = Arc::new(
-		Client::builder()
+		builder
 			.max_concurrent_requests(max_conc)
 			.id_format(if id_str { IdKind::String } else { IdKind::Number })
-			.request_timeout(Duration::from_secs(60))
+			.request_timeout(req_timeout)
 			.build_with_tokio(tx, rx),
 	);
 	let nonce = Arc::new(AtomicU64::new(1));
@@ -170,7 +177,12 @@ async fn scenario(prop: &'static str) {
 	for h in hs {
 		let _ = h.await;
 	}
-	rt::quiesce().await;
+	if ping_mode {
+		// the ping timers never end: a span longer than the request timeout stands in for quiescence
+		tokio::time::sleep(req_timeout + Duration::from_secs(2)).await;
+	} else {
+		rt::quiesce().await;
+	}
 	// ---------------- oracle ----------------
 	let errs = results.lock().unwrap().clone();
 	match fault_at {
@@ -186,7 +198,7 @@ async fn scenario(prop: &'static str) {
 			for (e, _, t0) in &errs {
 				if e.contains(PLACEHOLDER) {
 					rt::violate(prop, "placeholder-cause", "full-stack", format!("an operation failed with the placeholder: {e}"));
-				} else if e.contains("RequestTimeout") && t_fault.duration_since(*t0) < Duration::from_secs(60) {
+				} else if e.contains("RequestTimeout") && t_fault.duration_since(*t0) < req_timeout {
 					rt::violate(prop, "stalled-until-timeout", "full-stack", "an operation was left pending until its request timeout after the connection was reset");
 				} else if e.contains("ServiceDisconnect") {
 					rt::violate(prop, "internal-error-leaked", "full-stack", e.clone());
